@@ -286,3 +286,150 @@ pub fn read_cram(bytes: &[u8], repo: &fasta::Repository) -> Result<(sam::Header,
     .map_err(|f| ("records", f))?;
     Ok((header, recs))
 }
+
+/// A record the writer must refuse (`Err`), by kind. The first group is built as `RecordBuf`, the
+/// second as a lazy `sam::Record` parsed from a SAM line whose named field is malformed.
+#[derive(Clone, Copy, Debug, PartialEq)]
+pub enum Reject {
+    UndeclaredReadGroup,
+    ReadGroupNotAString,
+    LineUnknownReference,
+    LineUnknownMateReference,
+    LineBadFlags,
+    LineBadPosition,
+    LineBadMappingQuality,
+    LineBadCigarOp,
+    LineBadTemplateLength,
+    LineBadQualityChar,
+    LineBadAuxType,
+    LineUndeclaredReadGroup,
+}
+
+pub const REJECTS: [Reject; 12] = [
+    Reject::UndeclaredReadGroup,
+    Reject::ReadGroupNotAString,
+    Reject::LineUnknownReference,
+    Reject::LineUnknownMateReference,
+    Reject::LineBadFlags,
+    Reject::LineBadPosition,
+    Reject::LineBadMappingQuality,
+    Reject::LineBadCigarOp,
+    Reject::LineBadTemplateLength,
+    Reject::LineBadQualityChar,
+    Reject::LineBadAuxType,
+    Reject::LineUndeclaredReadGroup,
+];
+
+impl Reject {
+    /// SAM line of the lazy kinds (bases match sq0:10-17 so that only the named field is wrong).
+    pub fn line(&self) -> Option<&'static str> {
+        Some(match self {
+            Reject::UndeclaredReadGroup | Reject::ReadGroupNotAString => return None,
+            Reject::LineUnknownReference => "bad\t0\tnope\t10\t30\t8M\t*\t0\t0\tCACGTACG\tIIIIIIII",
+            Reject::LineUnknownMateReference => "bad\t1\tsq0\t10\t30\t8M\tnope\t5\t0\tCACGTACG\tIIIIIIII",
+            Reject::LineBadFlags => "bad\tzz\tsq0\t10\t30\t8M\t*\t0\t0\tCACGTACG\tIIIIIIII",
+            Reject::LineBadPosition => "bad\t0\tsq0\t-4\t30\t8M\t*\t0\t0\tCACGTACG\tIIIIIIII",
+            Reject::LineBadMappingQuality => "bad\t0\tsq0\t10\t999\t8M\t*\t0\t0\tCACGTACG\tIIIIIIII",
+            Reject::LineBadCigarOp => "bad\t0\tsq0\t10\t30\t4M2Q2M\t*\t0\t0\tCACGTACG\tIIIIIIII",
+            Reject::LineBadTemplateLength => "bad\t0\tsq0\t10\t30\t8M\t*\t0\tx\tCACGTACG\tIIIIIIII",
+            Reject::LineBadQualityChar => "bad\t0\tsq0\t10\t30\t8M\t*\t0\t0\tCACGTACG\tIIII\x01III",
+            Reject::LineBadAuxType => "bad\t0\tsq0\t10\t30\t8M\t*\t0\t0\tCACGTACG\tIIIIIIII\tXX:q:1",
+            Reject::LineUndeclaredReadGroup => "bad\t0\tsq0\t10\t30\t8M\t*\t0\t0\tCACGTACG\tIIIIIIII\tRG:Z:nope",
+        })
+    }
+
+    pub fn describe(&self) -> String {
+        match self.line() {
+            Some(l) => format!("{self:?}: sam::Record::try_from({:?})", l),
+            None => format!("{self:?}: RecordBuf 8M on sq0:10 with tag {}", if *self == Reject::UndeclaredReadGroup { "RG:Z:nope" } else { "RG:i:1" }),
+        }
+    }
+}
+
+#[derive(Clone, Debug)]
+pub enum WriteOp {
+    Accept(Rec),
+    Reject(Reject),
+}
+
+#[derive(Clone, Debug, PartialEq)]
+pub enum OpOutcome {
+    Ok,
+    Err(String),
+    Panic(String),
+}
+
+/// Runs a sequence of writes — some of which must be refused — on ONE writer instance and finishes
+/// it. Returns the outcome of every write, of `try_finish`, and the bytes.
+pub fn write_cram_ops(
+    repo: &fasta::Repository,
+    header: &sam::Header,
+    ops: &[WriteOp],
+    cfg: &WriteCfg,
+) -> (Vec<OpOutcome>, OpOutcome, Vec<u8>) {
+    use crate::rec::Tv;
+    let mut b = cram::io::writer::Builder::default()
+        .set_reference_sequence_repository(repo.clone())
+        .preserve_read_names(cfg.preserve_names)
+        .encode_alignment_start_positions_as_deltas(cfg.pos_delta);
+    if let Some(m) = cfg.encoder_map() {
+        b = b.set_block_content_encoder_map(m);
+    }
+    let mut w = b.build_from_writer(Vec::new());
+    if let Some(n) = cfg.records_per_slice {
+        w.verif_set_layout(n, 1);
+    }
+    let to_outcome = |r: Result<std::io::Result<()>, (String, String)>| match r {
+        Ok(Ok(())) => OpOutcome::Ok,
+        Ok(Err(e)) => OpOutcome::Err(format!("{:?}: {e}", e.kind())),
+        Err((m, f)) => OpOutcome::Panic(format!("{m} in {f}")),
+    };
+    let mut outcomes = Vec::new();
+    if let o @ (OpOutcome::Err(_) | OpOutcome::Panic(_)) = to_outcome(vmc::catch(|| w.write_header(header))) {
+        return (outcomes, o, Vec::new());
+    }
+    for op in ops {
+        let o = match op {
+            WriteOp::Accept(r) => {
+                let buf = r.to_record_buf();
+                to_outcome(vmc::catch(|| w.write_alignment_record(header, &buf)))
+            }
+            WriteOp::Reject(k) => match k.line() {
+                Some(line) => match sam::Record::try_from(line.as_bytes()) {
+                    Ok(lazy) => to_outcome(vmc::catch(|| w.write_alignment_record(header, &lazy))),
+                    // refused even earlier, by the line splitter: still a refusal, nothing reached the writer
+                    Err(e) => OpOutcome::Err(format!("(sam::Record::try_from) {e}")),
+                },
+                None => {
+                    let mut r = Rec {
+                        name: Some(b"bad".to_vec()),
+                        flags: 0,
+                        rid: Some(0),
+                        pos: Some(10),
+                        mapq: Some(30),
+                        cigar: vec![(b'M', 8)],
+                        mrid: None,
+                        mpos: None,
+                        tlen: 0,
+                        seq: b"CACGTACG".to_vec(),
+                        qual: vec![40; 8],
+                        tags: Vec::new(),
+                    };
+                    r.tags.push((
+                        [b'R', b'G'],
+                        if *k == Reject::UndeclaredReadGroup { Tv::Z(b"nope".to_vec()) } else { Tv::I32(1) },
+                    ));
+                    let buf = r.to_record_buf();
+                    to_outcome(vmc::catch(|| w.write_alignment_record(header, &buf)))
+                }
+            },
+        };
+        let stop = matches!(o, OpOutcome::Panic(_));
+        outcomes.push(o);
+        if stop {
+            return (outcomes, OpOutcome::Ok, Vec::new());
+        }
+    }
+    let fin = to_outcome(vmc::catch(|| w.try_finish(header)));
+    (outcomes, fin, w.into_inner())
+}
